@@ -451,8 +451,11 @@ func updateSectionPath(sectionPath *[]string, currentLevel *int, newLevel int, h
 		}
 	}
 
-	// Add new section
-	*sectionPath = append(*sectionPath, headingText)
+	// Add new section. Chunks created so far keep the path they were given, so
+	// the new path gets its own storage instead of reusing the popped entries.
+	path := make([]string, 0, len(*sectionPath)+1)
+	path = append(path, *sectionPath...)
+	*sectionPath = append(path, headingText)
 	*currentLevel = newLevel
 }
 
